@@ -59,6 +59,19 @@ def r2(ctx):
         raise AnalysisError("price offset of the kernel cannot be read (C01.R4 not uniform)")
     fi = ana.func(MASK)
     L = Sym(fi.params[0])
+    # the mask is a fresh array on every call: a memoised helper on the way would hand the same (mutable) array to every caller
+    saved_ev, ctx.evidence = ctx.evidence, True
+    try:
+        reach = ana.res.reachable([fi.qualname])
+        for q_ in sorted(reach):
+            g_ = ana.prog.functions.get(q_)
+            if g_ is None or not g_.qualname.startswith("fast_ticc.data_preparation"):
+                continue
+            if any("cache" in unparse(d_, 60) for d_ in g_.decorators):
+                ctx.fail(g_, "the switching-cost mask comes from a memoised function: every caller receives (and may edit) the same array object",
+                         line=g_.node.lineno, role=f"mask:memoised:{g_.name}", expected="a freshly allocated mask per call", found=", ".join(unparse(d_, 40) for d_ in g_.decorators))
+    finally:
+        ctx.evidence = saved_ev
     b = ana.builder(fi, no_inline=ana.known)
     rt = b.return_term()
     if not isinstance(rt, Sym):
